@@ -67,7 +67,9 @@ func dhcpAlphabet() []dEvent {
 	}
 	a = append(a, dEvent{Kind: "discover", K: 0, Req: "free"}, dEvent{Kind: "discover", K: 1, Req: "free"}, dEvent{Kind: "discover", K: 1, Req: "other"},
 		dEvent{Kind: "discover", K: 0, Req: "bcast"}, dEvent{Kind: "discover", K: 0, Req: "net"}, dEvent{Kind: "discover", K: 0, Req: "offsub"},
-		dEvent{Kind: "discover", K: 0, Req: "host"}, dEvent{Kind: "discover", K: 0, Req: "router"})
+		dEvent{Kind: "discover", K: 0, Req: "host"}, dEvent{Kind: "discover", K: 0, Req: "router"},
+		// a retransmitted DISCOVER: same xid as the client's open transaction
+		dEvent{Kind: "discover", K: 0, Req: "retransmit"}, dEvent{Kind: "discover", K: 1, Req: "retransmit"})
 	for k := 0; k < 3; k++ {
 		a = append(a, dEvent{Kind: "request", K: k, Req: "last"})
 	}
@@ -273,6 +275,11 @@ func runDHCP(alpha []dEvent, hist []int, o dhcpOpts) *dhcpResult {
 					var opts [][2][]byte
 					var req netip.Addr
 					switch ev.Req {
+					case "retransmit":
+						if _, open := obs.offer[ev.K]; open {
+							obs.nextXID--
+							reqXID = obs.offerXID[ev.K]
+						}
 					case "free":
 						req = dIP(3)
 					case "other":
@@ -597,6 +604,8 @@ func dhcpSeeds(alpha []dEvent) [][]int {
 		{find("capture", 0, ""), d1, r1},   // a captured client bound in the netfilter subnet
 		{d1, find("discover", 1, "other")}, // a second client asked for the address that is on offer to the first
 		{d1, r1, find("tick", 0, "")},      // a lease that has expired
+		{d1, find("discover", 1, "other"), r2},                       // the address on offer to the first client was acknowledged to the second
+		{d1, find("tick", 0, ""), find("discover", 1, "other"), r2}, // same, after the first client's offer ran out
 	}
 }
 
